@@ -305,7 +305,28 @@ Definition g_move_static_pinned : guard := fun P s =>
   | _ => true
   end.
 
-Inductive rule := RUndefine | RPointless | RDeleteUnused | RSelfCls | RMoveStatic | RDuplicate | RAlign.
+(* fixes.delete_unreachable_code (with hunt=C07-0 repaired): the module body is not a visited scope; a
+   statement of a class body that follows a blocking statement is kept when it defines a member whose
+   bare name or `Class.member` key is preserved (fixes._defines_preserved_member) *)
+Definition g_unreachable : guard := fun P s =>
+  match s with
+  | SDef _ _ => true
+  | SClass _ _ => true
+  | SVar _ => true
+  | SMDef c _ f _ => mem f P || mem (dotted c f) P
+  | SMClass c _ n => mem n P || mem (dotted c n) P
+  | SMVar c _ n => mem n P || mem (dotted c n) P
+  end.
+(* the pinned rule: no preserve parameter, every member after a blocking statement may go *)
+Definition g_unreachable_pinned : guard := fun _ s =>
+  match s with
+  | SMDef _ _ _ _ => false
+  | SMClass _ _ _ => false
+  | SMVar _ _ _ => false
+  | _ => true
+  end.
+
+Inductive rule := RUndefine | RPointless | RDeleteUnused | RSelfCls | RMoveStatic | RDuplicate | RAlign | RUnreachable.
 Definition rule_guard (r : rule) : guard :=
   match r with
   | RUndefine => g_undefine
@@ -315,6 +336,7 @@ Definition rule_guard (r : rule) : guard :=
   | RMoveStatic => g_move_static
   | RDuplicate => g_duplicate
   | RAlign => g_align
+  | RUnreachable => g_unreachable
   end.
 
 (* ---------------------------------------------------------------------------------------------- *)
